@@ -56,6 +56,7 @@ func c35(r *core.Report, p *core.Prog, thorough bool) {
 	r.Explain = "Decided: miner positions are assigned by sorting the pool on the unique node key and numbering every node, and every function that changes the pool's node list re-computes the positions before it returns; the rank permutation is a function of (seed, n) only and a miner's rank is perm[position]; AddNotarizedBlock removes the block of the same rank before appending, under the write lock, and keeps the list sorted by weight descending; nothing else re-orders the shared list; UpdateNotarizedBlock stores the given block. Not decided: that node keys are unique (registry invariant), tie behaviour for nodes missing from the permutation."
 	r.Rule("C35.positions", "computeNodePositions sorts Nodes by GetKey() and assigns SetIndex = index for every node; every writer of Pool.Nodes/NodesMap calls it afterwards on every path")
 	r.Rule("C35.ranks", "computeMinerRanks = rand.New(rand.NewSource(seed)).Perm(minersNum) (function of its parameters only); GetMinerRank returns minerPerm[miner.SetIndex]")
+	r.Rule("C35.rank-node", "the node whose position is looked up in a round's permutation (argument of GetMinerRank / IsRoundGenerator) is never the process-wide registry's or node.Self's object: a node's SetIndex belongs to one magic block's pool, and the registry and Self are re-bound to the node of whichever pool was built last")
 	r.Rule("C35.one-per-rank", "AddNotarizedBlock: the same-rank block is removed before the append, all under r.mutex write lock; the list stored back is sorted by Weight() descending")
 	r.Rule("C35.order-kept", "no other sort is applied to the shared notarizedBlocks slice itself")
 	r.Rule("C35.update", "UpdateNotarizedBlock stores the parameter block into the matching slot of notarizedBlocks and proposedBlocks")
@@ -173,6 +174,8 @@ func c35(r *core.Report, p *core.Prog, thorough bool) {
 		}
 		r.Check(ok, "C35.ranks", "GetMinerRank:perm-of-position", p.Pos(gmr.Pos()), "rank = minerPerm[miner.SetIndex]")
 	}
+	// ---- rank-node: whose position is looked up
+	c35RankNode(r, p)
 	// ---- one per rank
 	anb := p.Func("(*" + pkgRound + ".Round).AddNotarizedBlock")
 	nbf := p.Field(pkgRound, "Round", "notarizedBlocks")
@@ -371,4 +374,75 @@ func factsText(b *ssa.BasicBlock) string {
 		parts = append(parts, c.XD+" "+c.Op.String()+" "+c.YD)
 	}
 	return strings.Join(parts, "; ")
+}
+
+// c35RankNode checks every rank lookup: the node argument of GetMinerRank (concrete or through
+// an interface) and of its pass-through wrapper IsRoundGenerator must not be taken from the
+// process-wide node registry (node.GetNode, node.CopyNodes…) nor from node.Self. The positions
+// (SetIndex) are assigned per pool by computeNodePositions; registry and Self hold the object
+// that was added to a pool last.
+func c35RankNode(r *core.Report, p *core.Prog) {
+	const rule = "C35.rank-node"
+	n := 0
+	ord := map[string]int{}
+	isRankCall := func(c *ssa.CallCommon) (argIdx int, ok bool) {
+		name := core.CalleeName(c)
+		off := 0
+		if !c.IsInvoke() {
+			off = 1 // receiver is Args[0]
+		}
+		switch {
+		case strings.HasSuffix(name, ").GetMinerRank"):
+			return off, true
+		case strings.HasSuffix(name, ").IsRoundGenerator"):
+			return off + 1, true
+		}
+		return 0, false
+	}
+	for _, fn := range p.ModFuncs() {
+		if fn.Pkg.Pkg.Path() == pkgNode {
+			continue
+		}
+		for _, cs := range core.CallsIn(fn, false, func(c *ssa.CallCommon) bool { _, ok := isRankCall(c); return ok }) {
+			cc := cs.Instr.(ssa.CallInstruction).Common()
+			idx, _ := isRankCall(cc)
+			if idx >= len(cc.Args) {
+				continue
+			}
+			n++
+			bad := ""
+			for _, rt := range core.Slice(cc.Args[idx]) {
+				switch rt.Kind {
+				case "call":
+					var call *ssa.Call
+					switch x := rt.V.(type) {
+					case *ssa.Call:
+						call = x
+					case *ssa.Extract:
+						call, _ = x.Tuple.(*ssa.Call)
+					}
+					if call == nil {
+						continue
+					}
+					cn := core.CalleeName(call.Common())
+					if strings.HasPrefix(cn, pkgNode+".") { // package-level function of node: the registry
+						bad = "registry lookup " + cn
+					}
+					if strings.HasPrefix(cn, "(*"+pkgNode+".SelfNode).") {
+						bad = "node.Self via " + cn
+					}
+				case "global", "fieldload":
+					if strings.Contains(rt.Desc, "Self") && strings.Contains(describe(rt.V), "Self") && core.NamedName(derefType(rt.V.Type())) == pkgNode+".Node" {
+						bad = "node.Self's embedded node"
+					}
+				}
+			}
+			cn := core.CalleeName(cc)
+			key := fmt.Sprintf("%s:%s", core.EnclosingNamed(fn).String(), cn[strings.LastIndex(cn, ".")+1:])
+			ord[key]++
+			key = fmt.Sprintf("%s#%d", key, ord[key])
+			r.Check(bad == "", rule, key, p.Pos(cs.Instr.Pos()), "the ranked node must come from the round's own miner pool; found "+bad)
+		}
+	}
+	r.Floor(rule, "rank lookups (GetMinerRank / IsRoundGenerator call sites)", n, 6)
 }
